@@ -56,8 +56,15 @@ func Use(t *d.T) {
 	_ = d.Guarded{} // L-PKGO01
 	d.Only() // L-PKGO02
 	t.Hidden() // L-PKGO03
+	take(
+		1,
+		d.T{}, // L-CONT
+	)
 }
-`
+
+func take(int, d.T) {}
+
+var last d.T // L-LAST`
 
 type codeLine struct {
 	code, needle string
@@ -68,6 +75,8 @@ var allCodeLines = []codeLine{
 	{"CTOR01", "L-CTOR01"}, {"CTOR02", "L-CTOR02"}, {"CTOR03", "L-CTOR03"},
 	{"TONL01", "L-TONL01"}, {"TONL02", "L-TONL02"}, {"TONL03", "L-TONL03"},
 	{"PKGO01", "L-PKGO01"}, {"PKGO02", "L-PKGO02"}, {"PKGO03", "L-PKGO03"},
+	{"CTOR01", "L-CONT"}, // on a continuation line of a multi-line call
+	{"CTOR03", "L-LAST"}, // on the last line of the file (no final newline)
 }
 
 func allCategory(code string) string {
